@@ -7,7 +7,9 @@ The harness runs the real pool from 1–16 threads, orders what happened by the 
 the pool's critical section and prints that linearisation:
     pool-new …                     start of a case
     op get|put|forget|alloc|reset|reset_to_start|drop … => <what the implementation did>
-    q idle|contents|live => <state of the implementation at the end of a round>
+        (`op get <g> <1|0|p>`: should a construction be needed it succeeds / is refused / PANICS inside the
+         critical section — `get_with_size(huge)` under catch_unwind — which poisons the pool mutex)
+    q idle|contents|live|poisoned => <state of the implementation at the end of a round>
     oracle C19 <message>           the IMPLEMENTATION violated the property (no model involved)
 The driver replays the `op`/`q` lines on the model; its answers must equal the text after `=>` verbatim
 (identity of the arena behind every guard in creation order, new/reused, idle arenas seen under the
@@ -40,7 +42,7 @@ def _one(ctx, cases, mode, seed, label, st, oracle_props):
             case_no += 1; case_hdr[case_no] = l[2:]; continue
         if l.startswith("# "):
             k = l[2:].split(" ", 1)
-            if k[0] in ("ops", "get-variants", "branches", "summary") and len(k) == 2:
+            if k[0] in ("ops", "get-variants", "overflow", "branches", "summary") and len(k) == 2:
                 st.setdefault("harness_counters", {}).setdefault(k[0], []).append(k[1])
             continue
         if l.startswith("pool-new"):
@@ -102,7 +104,7 @@ def run_pool(ctx, cases, mode, seed_offset=0, label=None, oracle_props=None):
     if not ok:
         return False
     if not any(o["name"] == "build:driver" for o in ctx.obligations):
-        if not build_driver(ctx):
+        if not build_driver(ctx, "pool"):
             return False
     st = ctx.corr.setdefault("pool", {}).setdefault(label, {"mode": mode})
     done, k = 0, 0
